@@ -35,6 +35,38 @@ def with_ttl(r, ttl):
     raise TypeError(type(r))
 
 
+class ScenarioTimeout(Exception):
+    pass
+
+
+class wall_deadline:
+    """wall-clock watchdog around one simulated scenario (main thread only; no-op elsewhere)"""
+
+    def __init__(self, seconds):
+        self.seconds = seconds
+        self.armed = False
+
+    def __enter__(self):
+        import signal
+        import threading
+
+        if threading.current_thread() is threading.main_thread():
+            def on_alarm(signum, frame):
+                raise ScenarioTimeout("scenario exceeded %d s of wall time" % self.seconds)
+            self.old = signal.signal(signal.SIGALRM, on_alarm)
+            signal.setitimer(signal.ITIMER_REAL, self.seconds)
+            self.armed = True
+        return self
+
+    def __exit__(self, *a):
+        import signal
+
+        if self.armed:
+            signal.setitimer(signal.ITIMER_REAL, 0)
+            signal.signal(signal.SIGALRM, self.old)
+        return False
+
+
 class Universe:
     """numbers the distinct records (python `==`) of a scenario"""
 
@@ -67,12 +99,35 @@ class Trace:
         self.addr_ids = {}
         self.data_ids = {}
         self.last_sock = None
+        # watchdog: a check must terminate whatever the code under test does
+        self.dead = None           # reason the host was silenced, if it was
+        self.max_blocks = 4000     # atomic blocks per scenario
+        self.max_same_instant = 40  # blocks of one kind at one virtual instant (a timer re-arming itself for "now")
+        self._run = (None, 0)
 
     def addr_id(self, a):
         return self.addr_ids.setdefault(a, len(self.addr_ids) + 1)
 
     def data_id(self, d):
         return self.data_ids.setdefault(bytes(d), len(self.data_ids) + 1)
+
+    def silenced(self, kind):
+        """watchdog, asked before every top-level block: True -> the wrapper must not call into the library.
+        Trips when a block kind repeats at one virtual instant (the clock cannot advance: a livelock of the code
+        under test) or the scenario produces an absurd number of blocks; from then on the host is mute, so the
+        simulation runs out of events and the oracle sees the missing replies."""
+        if self.cur is not None:
+            return False
+        if self.dead is not None:
+            return True
+        key = (kind, self.sim.loop.ms)
+        self._run = (key, self._run[1] + 1) if self._run[0] == key else (key, 1)
+        if self._run[1] > self.max_same_instant and kind != "rx":
+            self.dead = "%s ran %d times at virtual time %d ms without the clock advancing (timer re-armed for the same instant)" % (
+                kind, self._run[1], self.sim.loop.ms - T0)
+        elif len(self.blocks) >= self.max_blocks:
+            self.dead = "more than %d atomic blocks in one scenario" % self.max_blocks
+        return self.dead is not None
 
     def begin(self, kind, **kw):
         if self.cur is not None:
@@ -103,6 +158,8 @@ class Trace:
             def datagram_received(self_, data, addrs):
                 if self_.zc is not zc:
                     return orig(self_, data, addrs)
+                if tr.silenced("rx"):
+                    return None
                 own = tr.begin("rx", data=bytes(data), src=(addrs[0], addrs[1]), lis=self_, v6=len(addrs) == 4)
                 if own:
                     tr.cur["pq"] = parse_query(zc, tr.uni, bytes(data), tr.sim.loop.ms, addrs[3] if len(addrs) == 4 else None)
@@ -117,6 +174,8 @@ class Trace:
             def _respond_query(self_, msg, addr, port, transport, v6):
                 if self_.zc is not zc:
                     return orig(self_, msg, addr, port, transport, v6)
+                if tr.silenced("tc"):
+                    return None
                 own = tr.begin("tc", addr=addr, lis=self_)
                 try:
                     return orig(self_, msg, addr, port, transport, v6)
@@ -129,6 +188,8 @@ class Trace:
             def async_ready(self_):
                 if self_.zc is not zc:
                     return orig(self_)
+                if tr.silenced("qf:%s" % (self_ is zc.out_delay_queue)):
+                    return None
                 own = tr.begin("qf", delayed=self_ is zc.out_delay_queue)
                 try:
                     return orig(self_)
@@ -267,7 +328,7 @@ def decode_out(tr, o):
         o["mcast"] = True
         return "m:%s:%s" % (a, x)
     o["mcast"] = False
-    return "u:%d:%d:%d:%s:%s:%s" % (tr.addr_id(o["to"][0]), o["to"][1], m.id, C.b01(len(m._questions) > 0), a, x)
+    return "u:%d:%d:%d:%d:%s:%s" % (tr.addr_id(o["to"][0]), o["to"][1], m.id, len(m._questions), a, x)
 
 
 def block_obs(tr, b, dedupe_mcast=False):
@@ -362,3 +423,31 @@ def build_query(rng, infos, uni, qid, *, nq=None, qu_p=0.3, tc=False, probe=Fals
     d = bytearray(pk[0])
     d[0], d[1] = qid >> 8, qid & 255
     return bytes(d), questions, qus
+
+
+def build_long_query(rng, infos, uni, qid):
+    """a multi-packet query as the library itself encodes it (`DNSOutgoing.packets()`): one PTR question and
+    200..400 known answers, so every packet after the first has an empty question section; TC on all but the last.
+    The host's own records are scattered among filler PTRs so that some of them are 'known' only in a later packet."""
+    from zeroconf import DNSOutgoing, DNSPointer, DNSQuestion, const as k
+
+    inf = rng.choice(infos)
+    out = DNSOutgoing(k._FLAGS_QR_QUERY)
+    out.add_question(DNSQuestion(inf.type, k._TYPE_PTR, k._CLASS_IN))
+    n = rng.choice([200, 300, 400])
+    tag = "%04x" % qid
+    known = [DNSPointer(inf.type, k._TYPE_PTR, k._CLASS_IN, 4500, "x%s-%d.%s" % (tag, i, inf.type)) for i in range(n)]
+    own = [i.dns_pointer() for i in infos if i.type == inf.type]
+    for r in own:
+        if rng.random() < 0.8:
+            ttl = rng.choice([r.ttl, r.ttl, r.ttl // 2 + 1, r.ttl // 2])
+            pos = rng.choice([len(known), rng.randrange(len(known) + 1), rng.randrange(len(known) // 2, len(known) + 1)])
+            known.insert(pos, with_ttl(r, ttl))
+    for r in known:
+        out.add_answer_at_time(r, 0)
+    datas = []
+    for pk in out.packets():
+        d = bytearray(pk)
+        d[0], d[1] = qid >> 8, qid & 255
+        datas.append(bytes(d))
+    return datas
